@@ -79,12 +79,25 @@ class Agg:
         if self.tier == "thorough" and deepen:
             # deeper bound: one more loop iteration per path (collections of up to unroll+1 elements), more paths allowed
             unroll, max_paths = unroll + 1, max_paths * 20
-        ex = mirexec.Exec(text, self.enums, mirsmt.consts_of(self.mir), m, set(log), unroll=unroll, mir=self.mir,
-                          max_paths=max_paths)
-        if prep:
-            # directed execution: the caller fixes some discriminants / arguments before the paths are enumerated
-            init_env = dict(init_env or {}, **(prep(ex) or {}))
-        ex.run(init_env)
+        base_unroll, base_paths = (unroll - 1, max_paths // 20) if (self.tier == "thorough" and deepen) else (unroll, max_paths)
+        base_env = init_env
+        for u, mp in ((unroll, max_paths), (base_unroll, base_paths)):
+            ex = mirexec.Exec(text, self.enums, mirsmt.consts_of(self.mir), m, set(log), unroll=u, mir=self.mir, max_paths=mp)
+            env = base_env
+            if prep:
+                # directed execution: the caller fixes some discriminants / arguments before the paths are enumerated
+                env = dict(base_env or {}, **(prep(ex) or {}))
+            try:
+                ex.run(env)
+            except Untranslatable as e:
+                if "too many paths" in str(e) and (u, mp) != (base_unroll, base_paths):
+                    # the deeper bound of the thorough tier does not fit: fall back to the quick tier's bound (recorded in the evidence:
+                    # the obligation's `unroll` field says which bound was decided)
+                    self.fallbacks = getattr(self, "fallbacks", [])
+                    self.fallbacks.append(fn_re)
+                    continue
+                raise
+            break
         self.npaths += len(ex.paths)
         return ex
 
